@@ -22,6 +22,9 @@ def sess_concat(seed, sep='\n'):
     # invisible barlines ('=1-') are barlines: they open measures and are legal cut positions (only data lines are compared)
     r, lines, types = dp.make_doc(seed, 'kern_only', max_rows=22, hidden_bars=(seed % 3 == 0), mid_sigs=False, max_spines=3, mid_comments=False,
                                   pre_comments=False, post_comments=(seed % 2 == 1), final_bar=0.5, opening_bar=0.5)   # every other score ends with '!!' lines after '*-'
+    if seed % 5 == 4:
+        # a score without any clef, key or time signature: the excerpt of a later fragment has nothing to restate
+        lines = [e for e in lines if not (e['ev'] == 'row' and any(c['k'] in gen.SIGKINDS for c in e['cells']))]
     texts = [session.line_text(e) for e in lines]
     bar_idx = [i for i, e in enumerate(lines) if e['ev'] == 'row' and e['cells'][0]['k'] == 'bar' and i > 0]
     cutsets = [list(c) for n in range(0, 6) for c in itertools.combinations(bar_idx, n)]
@@ -76,7 +79,7 @@ def main():
     quick = a.tier == 'quick'
     run = Run('C19', a.tier, a.seed, assumptions=[
         'I7: the first pair starts at 0', 'cuts are made before barline lines (property text)', 'scores are of C07\'s domain: kern-only, '
-        'signatures before the first measure; every third score has invisible barlines'])
+        'signatures before the first measure (every fifth score has no signature at all); every third score has invisible barlines'])
     run.rule = ('seeded kern-only scores x up to 24 cut sets (every subset of the barline lines when there are <= 24) x 2 separators; '
                 'non-trivial = distinct (score, cut set, separator) with >= 2 fragments')
     run.add_tlc(tlc.run_tlc('MC_Transform', 'MC_Transform.cfg', workers=16, timeout=3000, label='MC_Transform(ConcatLaw)'))
